@@ -182,7 +182,7 @@ pub fn run(args: &Args) -> i32 {
             let flow = render_flow(&nodes[0], &nm);
             let block = render_block(&nodes[0], &nm);
             for (tag, text) in [("f", &flow), ("b", &block)] {
-                if has_alias || c.doc.iter().any(|e| e.a != 0) {
+                if i % 5 == 0 && (has_alias || c.doc.iter().any(|e| e.a != 0)) {
                     emit_stale(&mut w, format!("c{i}-{tag}-stale"), text, &names, &mut stats);
                 }
                 if emit(&mut w, format!("c{i}-{tag}"), text, &c.doc, &mut stats) {
@@ -233,5 +233,92 @@ pub fn run(args: &Args) -> i32 {
         eprintln!("render-check failures: {}", stats.render_fail);
         return 2;
     }
+    0
+}
+
+
+// ------------------------------------------------------------------------------------------------
+// action-level traces of the event pump (TR_LiveEvents)
+// ------------------------------------------------------------------------------------------------
+#[derive(Serialize)]
+struct StepRec {
+    a: &'static str,
+    inject: usize,
+    rec: usize,
+    replayed: usize,
+    anchors: usize,
+    held: usize,
+    err: &'static str,
+}
+#[derive(Serialize)]
+struct TraceRec<'a> {
+    id: String,
+    yaml: &'a str,
+    raw: Vec<AEv>,
+    steps: Vec<StepRec>,
+}
+#[derive(Default, Serialize)]
+struct TStats {
+    records: usize,
+    nontrivial: usize,
+    steps: usize,
+    serve_steps: usize,
+    error_traces: usize,
+    samples: Vec<serde_json::Value>,
+}
+
+fn trace_one(w: &mut NdWriter, id: String, text: &str, limits: Option<(usize, usize, usize)>, stats: &mut TStats) {
+    let (raw, _) = raw_events(text);
+    let raw = strip_doc_markers(&raw);
+    if raw.is_empty() {
+        return;
+    }
+    let t = text.to_string();
+    let steps = guarded(move || {
+        let mut o = serde_saphyr::Options::default();
+        if let Some((total, stack, per)) = limits {
+            o.alias_limits.max_total_replayed_events = total;
+            o.alias_limits.max_replay_stack_depth = stack;
+            o.alias_limits.max_alias_expansions_per_anchor = per;
+        }
+        // the budget enforcer is not part of LiveEvents.tla: switch it off so that only the pump decides
+        o.budget = None;
+        serde_saphyr::verif_hooks::pump_trace_begin();
+        let _ = serde_saphyr::from_str_with_options::<Tree>(&t, o);
+        serde_saphyr::verif_hooks::pump_trace_end()
+    });
+    let Ok(steps) = steps else { return };
+    let steps: Vec<StepRec> = steps.into_iter().map(|s| StepRec { a: s.action, inject: s.inject, rec: s.rec, replayed: s.replayed, anchors: s.anchors, held: s.held, err: s.err }).collect();
+    stats.steps += steps.len();
+    let serves = steps.iter().filter(|s| s.a == "serve").count();
+    stats.serve_steps += serves;
+    if serves > 0 { stats.nontrivial += 1; }
+    if steps.iter().any(|s| !s.err.is_empty()) { stats.error_traces += 1; }
+    if stats.samples.len() < 3 && serves > 0 { stats.samples.push(serde_json::json!({"yaml": text, "steps": steps.len()})); }
+    w.put(&TraceRec { id, yaml: text, raw, steps });
+}
+
+/// `vh c02t --cases .. --out .. [--total N --stack N --per N] [--every k]`
+pub fn run_traces(args: &Args) -> i32 {
+    let mut w = NdWriter::create(args.req("out"));
+    let mut stats = TStats::default();
+    let limits = if args.get("total").is_some() { Some((args.num("total", 1_000_000) as usize, args.num("stack", 64) as usize, args.num("per", 1_000_000) as usize)) } else { None };
+    let every = args.num("every", 1).max(1) as usize;
+    if let Some(cases) = args.get("cases") {
+        let cases: Vec<Case> = read_ndjson(cases);
+        for (i, c) in cases.iter().enumerate() {
+            if i % every != 0 { continue; }
+            let mut names = vec![String::new()];
+            for n in &c.names { names.push(format!("n{}", n)); }
+            let Ok(nodes) = nodes_from_events(&c.doc) else { continue };
+            let nm = Names(Some(&names));
+            let text = if i % 2 == 0 { render_flow(&nodes[0], &nm) } else { render_block(&nodes[0], &nm) };
+            if render_check(&text, &c.doc).is_err() { continue; }
+            trace_one(&mut w, format!("t{i}"), &text, limits, &mut stats);
+        }
+    }
+    stats.records = w.n;
+    w.finish();
+    println!("{}", serde_json::to_string(&stats).unwrap());
     0
 }
